@@ -228,6 +228,9 @@ def run_populations(ctx):
         data = gen.data(rng, ln)
         shape, lens = gen.chunking(rng, ln)
         dsz = rng.choice([None, ln, ln, max(0, ln - 1), ln + 1, 0, 2 * ln, MIB, MIB + 1, 1])
+        if i % 6 == 5:
+            # a declared size is an unchecked claim of the caller: it may be astronomically wrong
+            dsz = rng.choice([2 ** 31 - 1, 2 ** 31, 2 ** 32, 2 ** 40, 2 ** 47, 2 ** 60, 2 ** 63 - 1, 2 ** 63, 2 ** 64 - 1])
         opts = {"algo": rng.choice(gen.ALGOS)}
         if dsz is not None:
             opts["size"] = dsz
@@ -247,7 +250,7 @@ def run_populations(ctx):
                                                 {"op": "rmtree", "path": cache + "/content-v2"}])]
         r = ctx.call(mode, req, timeout=30)
         cls = ("before_commit" in req, "len0" if ln == 0 else "small" if ln <= MIB else "big",
-               "undeclared" if dsz is None else "exact" if dsz == ln else "less" if dsz < ln else "more",
+               "undeclared" if dsz is None else "exact" if dsz == ln else "less" if dsz < ln else "more" if dsz < 2 ** 31 - 1 else "astronomic",
                "chunks%d" % min(len(lens), 2), req["final"])
         judge(ctx, f"writer len={ln} declared={dsz} chunks={lens[:6]} final={req['final']}", mode, req, r, "writer-options")
         ctx.case(distinct_key=("writer", mode) + cls,
